@@ -84,7 +84,9 @@ func headerName(fn string) string {
 
 // ---- reference negotiator, written from the statement ---------------------------------------------------
 
-var extMIME = map[string]string{"html": "text/html", "json": "application/json", "txt": "text/plain", "xml": "application/xml", "png": "image/png"}
+var extMIME = map[string]string{"html": "text/html", "json": "application/json", "txt": "text/plain", "xml": "application/xml", "png": "image/png",
+	// not in fiber's own table: resolved through Go's mime package, whose built-in entry carries a parameter
+	"mjs": "text/javascript; charset=utf-8"}
 
 // unquote returns the value of a quoted-string: without the quotes and with every quoted-pair \c replaced by c.
 func unquote(v string) string {
@@ -126,6 +128,12 @@ func splitOffer(o string) (mime string, params []Param) {
 	if !strings.Contains(mime, "/") {
 		if m, ok := extMIME[mime]; ok {
 			mime = m
+			if i := strings.Index(m, ";"); i >= 0 {
+				// the extension stands for a type with a parameter: the offer has it
+				mime = m[:i]
+				kv := strings.SplitN(strings.TrimSpace(m[i+1:]), "=", 2)
+				params = append(params, Param{kv[0], kv[1]})
+			}
 		}
 	}
 	for _, p := range parts[1:] {
@@ -339,7 +347,7 @@ func check(c Case) vk.Verdict {
 
 // ---- generator ------------------------------------------------------------------------------------------
 
-var mimes = []string{"text/html", "text/plain", "application/json", "image/png", "application/xml", "text/css", "text/csv", "image/gif", "image/jpeg", "application/pdf",
+var mimes = []string{"text/html", "text/plain", "text/javascript", "application/json", "image/png", "application/xml", "text/css", "text/csv", "image/gif", "image/jpeg", "application/pdf",
 	"application/zip", "audio/mpeg", "video/mp4", "font/woff2", "text/markdown", "application/yaml"}
 var tokens = []string{"utf-8", "gzip", "br", "en", "de", "iso-8859-1", "zstd", "fr", "es", "it", "pt", "nl", "sv", "da", "fi", "pl", "cs", "hu", "ja", "ko",
 	// look-alikes: sub-tags of a listed token, and tokens that only start with the letters of another one
@@ -413,7 +421,7 @@ func genStep(t *rapid.T) Step {
 		if media {
 			o := rapid.SampledFrom(mimes).Draw(t, "om")
 			if s.Fn == "accepts" && rapid.IntRange(0, 5).Draw(t, "ext") == 0 {
-				o = rapid.SampledFrom([]string{"html", "json", "txt", "xml", "png"}).Draw(t, "oext")
+				o = rapid.SampledFrom([]string{"html", "json", "txt", "xml", "png", "mjs", "mjs"}).Draw(t, "oext")
 			} else {
 				np := rapid.SampledFrom([]int{0, 0, 1, 2}).Draw(t, "onp")
 				names := rapid.SliceOfNDistinct(rapid.SampledFrom(pnames), np, np, rapid.ID[string]).Draw(t, "opn")
